@@ -209,6 +209,38 @@ def run(ctx):
     xof_rules.run_seed_stream(ctx, "R-C18.A.seed_stream")
     ctx.floor("R-C18.A.xof-absorbs-all-tag-parts", 12)
 
+    # ------------- algorithm identifiers: the identifier is what binds a report to its circuit (it is part of every tag), so two
+    # circuits must not share one and the multithreaded constructors must use their serial sibling's (draft-18 table 18)
+    rule = "R-C18.I.algorithm-id"
+    import re as _re
+    DRAFT = {"Count": 1, "Sum": 2, "SumVec": 3, "Histogram": 4, "MultihotCountVec": 5}
+    ids = {}
+    for f in ctx.prog.fns:
+        m = _re.search(r"^vdaf::prio3::Prio3::<flp::types::(\w+)<.*>::(new_\w+)$", f.id)
+        if not m or f.body is None:
+            continue
+        g = ctx.guards(f)
+        for bi, t in f.body.calls():
+            if t.callee.name == "new" and "Prio3" in (t.callee.path or ""):
+                ce = g.eb.call_expr(t)
+                if len(ce[2]) >= 4:
+                    a = ce[2][2]
+                    ids.setdefault(m.group(1), {})[m.group(2)] = a[1] if a[0] == "lit" else fmt(a)[:40]
+    for circ, d in sorted(ids.items()):
+        key = "%s:%s" % (rule, circ)
+        vals = set(d.values())
+        if len(vals) == 1 and (circ not in DRAFT or vals == {DRAFT[circ]}):
+            ctx.ok(rule, key, "every constructor of Prio3<%s> passes algorithm id %s" % (circ, sorted(vals)), loc=None)
+        else:
+            ctx.bad(rule, key, "constructors of Prio3<%s> disagree on the algorithm id or differ from the specification's (%s): %s" % (circ, DRAFT.get(circ), d))
+    key = rule + ":distinct"
+    firsts = [sorted(set(d.values()), key=str)[0] for d in ids.values() if d]
+    if len(ids) >= 5 and len(set(map(str, firsts))) == len(firsts):
+        ctx.ok(rule, key, "distinct circuits have distinct algorithm ids: %s" % {c: sorted(set(d.values()), key=str) for c, d in sorted(ids.items())})
+    else:
+        ctx.bad(rule, key, "two circuits share an algorithm id (or constructors were not found): %s" % {c: d for c, d in sorted(ids.items())})
+    ctx.floor(rule, 6)
+
     # ------------- role: the aggregator id is compared at full width
     rule = "R-C18.G.role"
     try:
